@@ -264,6 +264,43 @@ class Facts:
             self.bodies.setdefault(b.key, []).append(b)
         self._hir = None
         self._callers = None
+        self._canonicalise_mir_names()
+
+    def _canonicalise_mir_names(self):
+        """The MIR debug names of locals follow the same reference naming as the HIR facts (see hir_body): for a function whose binding structure is
+        unchanged, every renamed local is reported under its reference name. Only names are touched."""
+        ref = _refnames()
+        if not ref:
+            return
+        hir = self.hir()
+        import re as _re
+        maps = {}
+        for b in self.all_bodies:
+            fk = _re.sub(r"(::\{closure#\d+\})+$", "", b.key)
+            if fk not in maps:
+                m = None
+                v = hir.get(fk)
+                r = ref.get(fk)
+                if v and r:
+                    cur = [n for _i, n in hir_bindings(v[0])]
+                    if len(cur) == len(r) and cur != list(r):
+                        m = {}
+                        bad = set()
+                        curp = [(None, c) for c in cur]
+                        for c, rr in zip(cur, r):
+                            if not _is_rename(c, rr, curp, r):
+                                continue
+                            if c in m and m[c] != rr:
+                                bad.add(c)
+                            m[c] = rr
+                        for c in bad:
+                            m.pop(c, None)
+                        m = {c: rr for c, rr in m.items() if c != rr} or None
+                maps[fk] = m
+            m = maps[fk]
+            if m:
+                b.d["names"] = [[m.get(name, name), place] for name, place in b.d["names"]]
+                b._names = None
 
     def _load(self):
         headers = {}
@@ -320,9 +357,21 @@ class Facts:
                 self._hir = m
         return self._hir
 
-    def hir_body(self, key):
+    def hir_body(self, key, canonical=True):
+        """HIR body facts of `key`. With canonical=True the *names* of local bindings are mapped back to the reference names recorded in
+        lib/refnames.json when the function still has the same number of bindings (same binding structure): rules that read operator
+        skeletons then do not depend on how locals are called - a pure rename is invisible to them. Any other change of the binding
+        structure leaves the names as they are in the source."""
         v = self.hir().get(key)
-        return v[0] if v else None
+        if not v:
+            return None
+        body = v[0]
+        if not canonical:
+            return body
+        cache = self.__dict__.setdefault("_hir_canon", {})
+        if key not in cache:
+            cache[key] = _canonical_names(body, _refnames().get(key))
+        return cache[key]
 
     def adt(self, path):
         for h in self.headers.values():
@@ -342,3 +391,72 @@ class Facts:
             for c in h["consts"]:
                 m[c["path"]] = c["val"]
         return m
+
+
+_REFNAMES = None
+
+
+def _refnames():
+    global _REFNAMES
+    if _REFNAMES is None and os.environ.get("VERIF_NO_REFNAMES"):
+        _REFNAMES = {}          # development switch: measure which rules depend on names of locals
+    if _REFNAMES is None:
+        p = os.path.join(os.path.dirname(os.path.abspath(__file__)), "refnames.json")
+        try:
+            _REFNAMES = json.load(open(p))
+        except (OSError, ValueError):
+            _REFNAMES = {}
+    return _REFNAMES
+
+
+def _is_rename(cur_name, ref_name, cur, ref):
+    """A binding counts as renamed when its current name does not occur in the reference naming of the function and the reference name at its
+    position no longer occurs in the current one (so reordering two declarations is not mistaken for a rename)."""
+    if cur_name == ref_name:
+        return False
+    cur_names = {n for _i, n in cur}
+    return cur_name not in set(ref) and ref_name not in cur_names
+
+
+def hir_bindings(body):
+    """[(id, name)] of every local binding of a HIR body fact (parameters first, then patterns in source order)."""
+    out = []
+    seen = set()
+
+    def walk(x):
+        if isinstance(x, dict):
+            if x.get("p") == "bind" and "id" in x and x["id"] not in seen:
+                seen.add(x["id"])
+                out.append((x["id"], x.get("name")))
+            for v in x.values():
+                walk(v)
+        elif isinstance(x, list):
+            for v in x:
+                walk(v)
+    walk(body.get("params"))
+    walk(body.get("body"))
+    return out
+
+
+def _canonical_names(body, ref):
+    if not ref:
+        return body
+    cur = hir_bindings(body)
+    if len(cur) != len(ref) or [n for _i, n in cur] == list(ref):
+        return body
+    m = {i: r for (i, n), r in zip(cur, ref) if _is_rename(n, r, cur, ref)}
+    if not m:
+        return body
+
+    def conv(x):
+        if isinstance(x, dict):
+            y = {k: conv(v) for k, v in x.items()}
+            if x.get("p") == "bind" and x.get("id") in m:
+                y["name"] = m[x["id"]]
+            elif x.get("e") == "path" and x.get("res") == "Local" and x.get("id") in m:
+                y["name"] = m[x["id"]]
+            return y
+        if isinstance(x, list):
+            return [conv(v) for v in x]
+        return x
+    return conv(body)
